@@ -107,8 +107,11 @@ def windows_reg_key(comp_expr):
         comp_expr: A _ComparisonExpression object whose type is
             windows-registry-key
     """
-    if _path_is(comp_expr.lhs, ("key",)) \
-            or _path_is(comp_expr.lhs, ("values", _ANY_IDX, "name")):
+    if (
+        _path_is(comp_expr.lhs, ("key",))
+        or _path_is(comp_expr.lhs, ("values", _ANY_IDX, "name"))
+    ) and isinstance(comp_expr.rhs.value, str):
+        # (other constant kinds and set literals are compared as they are)
         comp_expr.rhs.value = comp_expr.rhs.value.lower()
 
 
@@ -127,7 +130,8 @@ def ipv4_addr(comp_expr):
     Args:
         comp_expr: A _ComparisonExpression object whose type is ipv4-addr.
     """
-    if _path_is(comp_expr.lhs, ("value",)):
+    if _path_is(comp_expr.lhs, ("value",)) \
+            and isinstance(comp_expr.rhs.value, str):
         value = comp_expr.rhs.value
         slash_idx = value.find("/")
         is_cidr = slash_idx >= 0
@@ -188,7 +192,8 @@ def ipv6_addr(comp_expr):
     Args:
         comp_expr: A _ComparisonExpression object whose type is ipv6-addr.
     """
-    if _path_is(comp_expr.lhs, ("value",)):
+    if _path_is(comp_expr.lhs, ("value",)) \
+            and isinstance(comp_expr.rhs.value, str):
         value = comp_expr.rhs.value
         slash_idx = value.find("/")
         is_cidr = slash_idx >= 0
